@@ -21,6 +21,10 @@ pub struct Variant {
     pub mode: BuildMode,
     /// keys ordering the property insertion of every node
     pub order_keys: Vec<u32>,
+    /// throw-away properties inserted into and removed from every instance's property map after
+    /// construction: the map then has another capacity / tombstones, the tree is the same
+    #[serde(default)]
+    pub churn: u8,
 }
 
 #[derive(Clone, Debug, Serialize, Deserialize)]
@@ -50,8 +54,20 @@ fn prop_orders(f: &GForest, keys: &[u32]) -> Vec<Vec<usize>> {
 /// The four outputs (binary x3 compressions, XML with WriteUnknown) of one construction.
 pub fn outputs(f: &GForest, v: &Variant) -> Result<Vec<Vec<u8>>, Fail> {
     let orders = prop_orders(f, &v.order_keys);
-    let built = forest::build(f, v.mode, Some(&orders));
+    let mut built = forest::build(f, v.mode, Some(&orders));
     let roots = built.root_refs(f);
+    if v.churn > 0 {
+        let all: Vec<rbx_types::Ref> = built.dom.descendants().map(|i| i.referent()).collect();
+        for r in all {
+            let inst = built.dom.get_by_ref_mut(r).unwrap();
+            for k in 0..v.churn {
+                inst.properties.insert(format!("__churn{k}").as_str().into(), rbx_types::Variant::Bool(false));
+            }
+            for k in 0..v.churn {
+                inst.properties.remove(&rbx_dom_weak::ustr(&format!("__churn{k}")));
+            }
+        }
+    }
     let mut out = Vec::new();
     for (comp, _) in COMPRESSIONS {
         out.push(write_binary(&built.dom, &roots, comp)?);
@@ -73,18 +89,26 @@ pub fn det_profile(max_nodes: usize) -> forest::ForestProfile {
     p
 }
 
+/// `det_profile` plus nodes that carry several spellings of one property at once.
+pub fn det_profile_multi(max_nodes: usize) -> forest::ForestProfile {
+    let mut p = det_profile(max_nodes);
+    p.multi_spelling = true;
+    p
+}
+
 pub fn variant_strategy() -> BoxedStrategy<Variant> {
     (
         prop_oneof![Just(BuildMode::Builder), Just(BuildMode::InsertEach), Just(BuildMode::InsertThenMove)],
         proptest::collection::vec(any::<u32>(), 0..6),
+        prop_oneof![3 => Just(0u8), 2 => 1u8..40],
     )
-        .prop_map(|(mode, order_keys)| Variant { mode, order_keys })
+        .prop_map(|(mode, order_keys, churn)| Variant { mode, order_keys, churn })
         .boxed()
 }
 
 pub fn det_case(max_nodes: usize) -> BoxedStrategy<DetCase> {
     (
-        forest::forest(det_profile(max_nodes)),
+        forest::forest(det_profile_multi(max_nodes)),
         proptest::collection::vec(variant_strategy(), 2..5),
     )
         .prop_map(|(forest, variants)| DetCase { forest, variants })
@@ -113,6 +137,15 @@ fn classify(case: &DetCase, ctx: &mut CaseCtx) {
     ctx.label_if(multi_prop && reordered, "property_insertion_order_varied");
     ctx.label_if(modes.len() >= 2, "construction_path_varied");
     ctx.label_if(classes.len() >= 2, "several_classes");
+    ctx.label_if(case.variants.iter().any(|v| v.churn > 0) && case.variants.iter().any(|v| v.churn == 0), "property_map_history_varied");
+    let multi_spelled = case.forest.nodes.iter().any(|n| {
+        let mut seen = std::collections::HashSet::new();
+        n.props.iter().any(|(name, _)| {
+            let canon = crate::dbview::resolve(&n.class, name).map(|v| v.roundtrip).unwrap_or_else(|| name.clone());
+            !seen.insert(canon)
+        })
+    });
+    ctx.label_if(multi_spelled, "node_with_several_spellings_of_one_property");
     ctx.nontrivial_if(((multi_prop && reordered) || modes.len() >= 2) && (classes.len() >= 2 || case.forest.nodes.len() >= 3));
 }
 
@@ -248,7 +281,7 @@ fn resave_body(case: &ResaveCase, ctx: &mut CaseCtx) -> PropResult {
     let (bin_f, xml_f) = match &case.source {
         Source::Own => {
             ctx.label("own_file");
-            let v = Variant { mode: BuildMode::Builder, order_keys: vec![] };
+            let v = Variant { mode: BuildMode::Builder, order_keys: vec![], churn: 0 };
             let Some(o) = skip_unserializable(outputs(&case.forest, &v), ctx)? else { return Ok(()) };
             (o[0].clone(), Some(o[3].clone()))
         }
@@ -281,31 +314,190 @@ fn resave_body(case: &ResaveCase, ctx: &mut CaseCtx) -> PropResult {
     Ok(())
 }
 
+// ---------------------------------------------------------------------------
+// history independence: what the thread serialized (or failed to serialize) before must not matter
+
+#[derive(Clone, Debug, Serialize, Deserialize)]
+pub enum Interference {
+    /// a successful save of another tree
+    SaveOther { forest: GForest, variant: Variant },
+    /// binary save that fails inside attribute encoding (an attribute of a type the format has no encoding for)
+    AttrFails { good_before: u8 },
+    /// save of a known property holding a value of the wrong type
+    TypeMismatch { xml: bool },
+    /// save of another tree into a sink that fails after `after` bytes
+    SinkFails { forest: GForest, xml: bool, after: u16 },
+}
+
+#[derive(Clone, Debug, Serialize, Deserialize)]
+pub struct HistoryCase {
+    pub forest: GForest,
+    pub between: Vec<Interference>,
+}
+
+struct ShortSink {
+    budget: usize,
+}
+
+impl Write for ShortSink {
+    fn write(&mut self, buf: &[u8]) -> std::io::Result<usize> {
+        if self.budget == 0 && !buf.is_empty() {
+            return Err(std::io::Error::new(std::io::ErrorKind::Other, "injected sink failure"));
+        }
+        let n = buf.len().min(self.budget);
+        self.budget -= n;
+        Ok(n)
+    }
+    fn flush(&mut self) -> std::io::Result<()> {
+        Ok(())
+    }
+}
+
+/// true = the save failed (as intended for the failing kinds)
+fn interfere(i: &Interference) -> bool {
+    use rbx_dom_weak::{InstanceBuilder, WeakDom};
+    use rbx_types::{Attributes, Variant as V};
+    match i {
+        Interference::SaveOther { forest, variant } => outputs(forest, variant).is_err(),
+        Interference::AttrFails { good_before } => {
+            let mut a = Attributes::new();
+            for k in 0..*good_before {
+                a.insert(format!("a{k}"), V::Float64(k as f64 + 0.5));
+            }
+            a.insert("zz_unencodable".into(), V::Ref(rbx_types::Ref::new()));
+            let dom = WeakDom::new(InstanceBuilder::new("Folder").with_property("Attributes", a));
+            let r = crate::engine::catch(|| {
+                let mut out = Vec::new();
+                rbx_binary::to_writer(&mut out, &dom, &[dom.root_ref()]).is_err()
+            });
+            r.unwrap_or(true)
+        }
+        Interference::TypeMismatch { xml } => {
+            let dom = WeakDom::new(
+                InstanceBuilder::new("Part")
+                    .with_property("Attributes", {
+                        let mut a = Attributes::new();
+                        a.insert("k".into(), V::Bool(true));
+                        a
+                    })
+                    .with_property("Anchored", V::String("not a bool".into()))
+                    .with_property("Transparency", V::Vector3(rbx_types::Vector3::new(1.0, 2.0, 3.0))),
+            );
+            let r = crate::engine::catch(|| {
+                let mut out = Vec::new();
+                if *xml {
+                    rbx_xml::to_writer_default(&mut out, &dom, &[dom.root_ref()]).is_err()
+                } else {
+                    rbx_binary::to_writer(&mut out, &dom, &[dom.root_ref()]).is_err()
+                }
+            });
+            r.unwrap_or(true)
+        }
+        Interference::SinkFails { forest, xml, after } => {
+            let built = forest::build(forest, BuildMode::Builder, None);
+            let roots = built.root_refs(forest);
+            let r = crate::engine::catch(|| {
+                let sink = ShortSink { budget: *after as usize };
+                if *xml {
+                    rbx_xml::to_writer(sink, &built.dom, &roots, Pairing::Unknown.options().0).is_err()
+                } else {
+                    rbx_binary::to_writer(sink, &built.dom, &roots).is_err()
+                }
+            });
+            r.unwrap_or(true)
+        }
+    }
+}
+
+fn history_body(case: &HistoryCase, ctx: &mut CaseCtx) -> PropResult {
+    classify_forest(&case.forest, ctx);
+    let v = Variant { mode: BuildMode::Builder, order_keys: vec![], churn: 0 };
+    let Some(before) = skip_unserializable(outputs(&case.forest, &v), ctx)? else { return Ok(()) };
+    let mut failed = 0;
+    for i in &case.between {
+        if interfere(i) {
+            failed += 1;
+            ctx.label(match i {
+                Interference::SaveOther { .. } => "between:other_save_failed",
+                Interference::AttrFails { .. } => "between:attribute_encoding_failed",
+                Interference::TypeMismatch { .. } => "between:type_mismatch_failed",
+                Interference::SinkFails { .. } => "between:sink_failed",
+            });
+        }
+    }
+    ctx.label_if(failed > 0, "failed_save_in_between");
+    let has_blob = case.forest.nodes.iter().any(|n| {
+        n.props.iter().any(|(_, v)| matches!(v, crate::gen::vals::GVal::Attributes(_) | crate::gen::vals::GVal::SharedString(_) | crate::gen::vals::GVal::Tags(_)))
+    });
+    ctx.nontrivial_if(failed > 0 && has_blob);
+    let after = match outputs(&case.forest, &v) {
+        Ok(o) => o,
+        Err(f) => fail!("determinism:history:success", "a tree that serialized before other saves on this thread no longer does: {}", f.msg),
+    };
+    for k in 0..4 {
+        ensure!(
+            after[k] == before[k],
+            format!("determinism:history:{}", NAMES[k]),
+            "{} output of one tree differs before and after {} other save(s) ({failed} failed) on the same thread ({} vs {} bytes)",
+            NAMES[k],
+            case.between.len(),
+            before[k].len(),
+            after[k].len()
+        );
+    }
+    ctx.add_evals(1);
+    Ok(())
+}
+
+fn history_strategy() -> BoxedStrategy<HistoryCase> {
+    let small = || forest::forest(det_profile(4));
+    let interference = prop_oneof![
+        2 => (small(), variant_strategy()).prop_map(|(forest, variant)| Interference::SaveOther { forest, variant }),
+        2 => (0u8..4).prop_map(|good_before| Interference::AttrFails { good_before }),
+        1 => any::<bool>().prop_map(|xml| Interference::TypeMismatch { xml }),
+        2 => (small(), any::<bool>(), 0u16..600).prop_map(|(forest, xml, after)| Interference::SinkFails { forest, xml, after }),
+    ];
+    (forest::forest(det_profile(8)), proptest::collection::vec(interference, 1..4))
+        .prop_map(|(forest, between)| HistoryCase { forest, between })
+        .boxed()
+}
+
 pub fn run(ctx: &Ctx) -> PropertyReport {
     let mut rep = PropertyReport::new(
         "C07",
         "exploration",
         "(1) in-process: the same logical tree built through 2-4 construction variants (builder tree / one insert per node / insert-then-transfer_within; permuted property insertion \
          order; fresh referents every time) must give byte-identical binary (x3 compressions) and XML output; (2) cross-process: batches are re-serialized by freshly started copies of the \
-         harness (own hash seeds per process) and compared byte for byte; (3) re-save: S1 = save(load(F)), S2 = save(load(S1)) must be equal, for F written by rbx_binary / rbx_xml and by the \
+         harness (own hash seeds per process) and compared byte for byte; (3) history: one tree is saved, then 1-3 other saves run on the same thread (successful ones, and ones that fail inside attribute encoding, on a type mismatch, or because \
+         the sink fails after N bytes), then the tree is saved again: same bytes; (4) re-save: S1 = save(load(F)), S2 = save(load(S1)) must be equal, for F written by rbx_binary / rbx_xml and by the \
          reference encoder. Non-trivial = variants that really differ (>= 2 properties reordered or >= 2 construction paths) on a tree with >= 2 classes or >= 3 nodes.",
     );
     rep.assume("UniqueId properties are pairwise distinct within a DOM (collision regeneration is deliberately random: C12)");
     let sub = crate::engine::replay_subcheck_or_all(ctx);
     if sub.runs("in-process") {
-        let cases = ctx.cfg.cases(8000, 250_000);
+        let cases = ctx.cfg.cases(24_000, 400_000);
         let mut r = ctx.run_prop("in-process", cases, || det_case(12), inprocess_body);
         r.floor("property_insertion_order_varied", cases / 20);
         r.floor("construction_path_varied", cases / 20);
+        r.floor("property_map_history_varied", cases / 20);
+        r.floor("node_with_several_spellings_of_one_property", cases / 50);
         rep.push(r);
     }
     if sub.runs("cross-process") {
-        let cases = ctx.cfg.cases(64, 1600);
+        let cases = ctx.cfg.cases(200, 3000);
         let strat = || proptest::collection::vec(det_case(10), 8..20).prop_map(|cases| Batch { cases });
         rep.push(ctx.run_prop("cross-process", cases, strat, crossprocess_body));
     }
+    if sub.runs("history") {
+        let cases = ctx.cfg.cases(16_000, 300_000);
+        let mut r = ctx.run_prop("history", cases, history_strategy, history_body);
+        r.floor("failed_save_in_between", cases / 4);
+        r.floor("between:attribute_encoding_failed", cases / 20);
+        r.floor("between:sink_failed", cases / 20);
+        rep.push(r);
+    }
     if sub.runs("resave") {
-        let cases = ctx.cfg.cases(6000, 200_000);
+        let cases = ctx.cfg.cases(16_000, 300_000);
         let strat = || {
             prop_oneof![
                 2 => forest::forest(det_profile(10)).prop_map(|forest| ResaveCase { forest, source: Source::Own }),
